@@ -163,16 +163,21 @@ def run_keys(spec, res):
     eps = np.finfo(float).eps
     tol = ctol(eps, cond)
     fd = harness.make_fd(n, (-1.0, -0.5, 0.3), (0.3, 0.2, 0.1))
+    partial = bool(spec['components'] and spec['seed'] % 4 == 3)
+    if partial:
+        be[0] = 0.0           # beta^x vanishes and is simply not supplied
     if spec['components']:
         names = ['gxx', 'gxy', 'gxz', 'gyy', 'gyz', 'gzz']
         knames = ['kxx', 'kxy', 'kxz', 'kyy', 'kyz', 'kzz']
         ij = [(0, 0), (0, 1), (0, 2), (1, 1), (1, 2), (2, 2)]
         inp = {nm: gam[i, j] for nm, (i, j) in zip(names, ij)}
         inp.update({nm: K[i, j] for nm, (i, j) in zip(knames, ij)})
-        inp.update(alpha=al, betax=be[0], betay=be[1], betaz=be[2])
+        inp.update(alpha=al, betay=be[1], betaz=be[2])
+        if not partial:
+            inp['betax'] = be[0]
     else:
         inp = dict(gammadown3=gam, Kdown3=K, alpha=al, betaup3=be)
-    tags = [spec['cls'], 'components' if spec['components'] else 'tensors',
+    tags = [spec['cls'], ('components-without-betax' if partial else 'components') if spec['components'] else 'tensors',
             'x'.join(map(str, n))]
     rel = harness.make_rel(fd, inp, clear_cache_every_nbr_calc=10**9,
                            memory_threshold_inGB=1e9)
